@@ -176,7 +176,8 @@ def run_tlc(module, cfg=None, workers=1, env=None, timeout=3600,
             shutil.copy(os.path.join(SPEC, cfg), os.path.join(cwd, cfg))
     cwd = cwd or SPEC
     meta = tempfile.mkdtemp(prefix='tlc-', dir=tmp_root())
-    cmd = ['java', '-XX:+UseParallelGC', '-Xmx' + heap, '-Xss64m',
+    cmd = ['java', '-XX:+UseParallelGC', '-XX:ParallelGCThreads=2',
+           '-XX:CICompilerCount=2', '-Xmx' + heap, '-Xss64m',
            '-DTLA-Library=' + SPEC,
            '-cp', TLA_CP, 'tlc2.TLC',
            '-metadir', meta, '-noGenerateSpecTE',
